@@ -12,6 +12,7 @@ import (
 	"fmt"
 	"hash/crc32"
 	"math/rand/v2"
+	"strings"
 
 	"cloud.google.com/go/kms/apiv1/kmspb"
 	"github.com/google/gce-tcb-verifier/keys/gcpkms"
@@ -345,7 +346,7 @@ func signCase(c *core.Ctx, i int, gname string, r *rand.Rand, sigLen int, st *si
 			}
 		}
 		if len(why) > 0 {
-			c.Violate(core.Violation{Kind: "oracle", Entry: "Signer.Sign", Site: "signature-returned-for-" + classGroup(p.class), Gen: g, Case: i,
+			c.Violate(core.Violation{Kind: "oracle", Entry: "Signer.Sign", Site: "signature-returned-for-" + siteGroup(p.class), Gen: g, Case: i,
 				Detail: fmt.Sprintf("Sign returned a %d-byte signature and no error although %v", len(out), why),
 				Witness: map[string]any{"probe": p.detail, "opts": p.opt.name, "signature_len": sigLen, "digest": fmt.Sprintf("%x", p.digest),
 					"delivered_response": fmt.Sprint(resp), "request": fmt.Sprint(s.sentReq)}})
@@ -385,6 +386,14 @@ func signCase(c *core.Ctx, i int, gname string, r *rand.Rand, sigLen int, st *si
 		signer.Sign(context.Background(), keyVer, styp.Digest{SHA256: digest}, (*rsa.PSSOptions)(nil))
 		c.Eval(1)
 	}()
+}
+
+// siteGroup keeps violation signatures few and stable: all option values share one rule name.
+func siteGroup(class string) string {
+	if strings.HasPrefix(class, "opts:") {
+		return "non-pss-sha256-options"
+	}
+	return class
 }
 
 func classGroup(class string) string { return class }
